@@ -100,6 +100,18 @@ add("C12", "exploration",
     "representations of one workload run under one hash seed (hash-seed effects belong to C06).",
     "deterministic simulation of cache histories (sequential actors, logical clock) + golden equality across representations/partitions")
 
+add("C08", "exploration",
+    "Two layers. Machine: Hypothesis-generated multisets of the alignments of one read (flags, chromosomes, regions, types, "
+    "isoform/gene lists, penalties, exact duplicates) are fed to the real MultimapResolver in EVERY permutation (<= 720) and "
+    "compared with a reference model no stricter than the statement; the retained set must be permutation-invariant and "
+    "identical after the serialize/deserialize path. Pipeline: paralog workloads presented in different chromosome-length "
+    "rankings, BAM file orders and tie orders x memory mode x threads x schedules must give equal outputs as multisets; the "
+    "counts oracle bounds each read's total contribution by 1.",
+    "Trusted: the 40-line reference model; machine records are built like BasicReadAssignment.deserialize builds them; "
+    "permutations are exhaustive only per multiset (<= 6 records), multisets are sampled.",
+    "deterministic simulation of record-order histories: exhaustive permutation of seeded alignment multisets vs reference model; "
+    "order-permuted pipeline runs")
+
 PENDING = {p: "simulation target (DESIGN.md sections 3-4) whose check is not registered in this revision yet"
            for p in ["C02", "C03", "C05", "C07", "C08", "C09", "C10", "C12", "C15", "C17", "C18", "C20"]}
 
